@@ -2,6 +2,7 @@
 import random
 from vlib.driver import Plan, H
 from vlib.catalog import *
+from props import strprops
 
 
 def num_harness(d, hname, sabotage=False):
@@ -150,10 +151,16 @@ def generate(tier, seed):
         s, hn = twin_module(a, b, i)
         src.append(s)
         plan.add(H(hn, "main", {"twin": "const_fn vs plain", "type": a.ty, "validators": a.validators, "bounds": a.const_vals}))
+    src.append(strprops.gen_c01(plan, tier, rng))
     plan.source = "\n".join(src)
     plan.bounds = {"integers/floats": "loop-free: every value of the inner type and (expression-bound declarations) every bound value; no unwinding involved",
                    "catalogue": "validator-kind combinations, closure/path spellings and literal extremes are enumerated, not solved"}
     plan.assumptions = ["bound values of float declarations are non-NaN (a NaN bound denotes no number)",
                         "custom predicate/sanitizer range over the symbolic families pred(x)=(bits(x)&MASK)!=0, san(x)=bits(x)^K",
                         "Kani models the dev profile (overflow checks on)"]
+    if "-Z" not in plan.kani_flags:
+        plan.kani_flags = plan.kani_flags + ["-Z", "stubbing"]
+    plan.pre_steps = plan.pre_steps + [strprops.model_validation_step]
+    plan.assumptions = plan.assumptions + strprops.ASSUMPTIONS
+    plan.bounds["strings"] = "skeleton inputs: concrete whitespace/underscore/non-ASCII characters + <= 3 symbolic printable-ASCII fillers, one harness per (declaration, skeleton); unwind 12-14"
     return plan
